@@ -427,13 +427,18 @@ func harnessAPI(e *Exec, g *G, fn *ssa.Function, args []Value) (Value, bool) {
 		}
 		l := e.lockOf(p)
 		return tt.Bool(l.writer == g), true
-	case "lockHeld":
-		p := args[0].(Ptr)
+	case "lockHeld", "readLockHeld":
+		var p Ptr
+		switch a := args[0].(type) {
+		case Ptr:
+			p = a
+		case Iface:
+			p, _ = a.V.(Ptr)
+		}
 		l := e.lockOf(p)
-		return tt.Bool(l.writer != nil), true
-	case "readLockHeld":
-		p := args[0].(Ptr)
-		l := e.lockOf(p)
+		if fn.Name() == "lockHeld" {
+			return tt.Bool(l.writer != nil), true
+		}
 		return tt.Bool(l.nread > 0), true
 	case "schedpoint":
 		return nil, true
